@@ -434,8 +434,8 @@ QUICK = {
     "C07": ["kd8_quick_finish_n1", "kd8_quick_finish_n3", "kd6_stored_one_call"],
     "C08": ["ki5e_check_zlib", "ki5e_check_gzip", "ki5e_length_gzip", "ki5b_hcrc", "ki5b_fixed_part", "ki5b_name",
             "ki7_inflate_copyblock", "kc9_adler_len_0_1_2_3"],
-    "C09": ["kc9_crc_tables", "kc9_crc_braid_table", "kc9_crc_naive_step", "kc9_crc_word_step", "kc9_crc_braid_short",
-            "kc9_crc_combine_len0_1_2", "kc9_multmodp_identity", "kc9_adler_len_0_1_2_3", "kc9_adler_len_4_5"],
+    "C09": ["kc9_crc_tables", "kc9_crc_braid_table", "kc9_crc_naive_step", "kc9_crc_braid_short",
+            "kc9_crc_combine_len0_1_2", "kc9_multmodp_identity", "kc9_adler_len_0_1_2_3"],
     "C10": ["ki2_copy_match_twin_small", "ki2_extend_from_window_twin", "ki3_window_extend_ring", "kd10_reset_equals_fresh",
             "ki8_reset_equals_fresh"],
     "C11": ["kd7_zlib_wrapper", "kd8_quick_sync_n3", "kd1_emitters_one_step"],
@@ -448,7 +448,7 @@ QUICK = {
             "kd10_set_header", "kd10_set_dictionary_protocol", "ki7_inflate_terminal", "ki5e_terminal_modes"],
     "C18": ["ka1_alloc_shim", "ka1_alloc_overflow_and_null", "ka2_deflate_copy_alloc_failure"],
     "C19": ["kb1_back_lit1_d0", "kb1_back_lit1_d4", "kb1_back_lit1_d16", "kb1_back_lit1_d29", "kb1_back_lit1_d30",
-            "kb1_back_lit9_d5", "kb1_back_wrapped_d15", "kb1_back_wrapped_d16", "ki2_copy_match_back"],
+            "kb1_back_lit9_d5", "ki2_copy_match_back"],
     "C20": ["ki5b_fixed_part", "ki5b_extra", "ki5b_name", "ki5b_comment", "ki5b_hcrc", "kd10_set_header"],
 }
 for _pid, _hs in QUICK.items():
